@@ -65,6 +65,19 @@ Example flat_guess_example :
   flat_guess (2 * 11 * 3) = None.
 Proof. vm_compute. auto. Qed.
 
+(* Meta-less readers Reader(file, nc=, ns=, fs=) (tree at 3b02450): for every
+   announced sample count within the data, the .bin and the .cbin reader both
+   open and expose exactly that count — same shape through either file.      *)
+Theorem C02_nometa_shape_transparent : forall w ns, 1 <= w_nc w -> 1 <= ns <= w_n w ->
+  r_open_nometa w DBin ns = Some ns /\ r_open_nometa w DCbin ns = Some ns.
+Proof. exact nometa_transparent. Qed.
+Print Assumptions C02_nometa_shape_transparent.
+
+Example nometa_example :
+  r_open_nometa w_ex DBin 9 = Some 9 /\ r_open_nometa w_ex DCbin 9 = Some 9 /\
+  r_open_nometa w_ex DBin 12 = None /\ r_open_nometa w_ex DCbin 12 = Some 12.
+Proof. vm_compute. auto. Qed.
+
 (* ---------------------------------------------------------------------- *)
 (* compress_file (tree at 746882f: stream -> x.cbin_tmp, header -> x.ch_tmp,
    then rename header, rename stream, unlink source).  Source x.bin complete;
